@@ -212,4 +212,19 @@ theorem sHalt_discAlong (ext : ExtOps) : StackDiscAlong (machine ext false) (sHa
   · exact sHalt_disc 0 (.inl rfl)
   · exact sHalt_disc 1 (.inr rfl)
 
+/-- from the state after HALT nothing else is reachable (the next fetch fails) -/
+theorem sHalt_reaches1 (ext : ExtOps) {s' : St CHeap} (hr : Reaches (machine ext false) (sHalt 1) s') :
+    s' = sHalt 1 := by
+  induction hr with
+  | refl => rfl
+  | next _ e ih => subst ih; rw [sHalt_step1] at e; cases e
+  | halt _ e ih => subst ih; rw [sHalt_step1] at e; cases e
+  | gc _ ih => subst ih; exact sHalt_gc ext 1
+
+theorem sHalt_sizeBounded1 (ext : ExtOps) : SizeBounded (machine ext false) (sHalt 1) := by
+  intro s' hr; rw [sHalt_reaches1 ext hr]; exact sHalt_small 1
+
+theorem sHalt_discAlong1 (ext : ExtOps) : StackDiscAlong (machine ext false) (sHalt 1) := by
+  intro s' hr; rw [sHalt_reaches1 ext hr]; exact sHalt_disc 1 (.inr rfl)
+
 end Marwood.Lemmas.Good.Demo
